@@ -143,6 +143,8 @@ class C01(Prop):
         cmp = getattr(self, "compare", True)
         th = tier == "thorough"
         core.tie_run(stats, "stream", ["gen-e2e", seed, 400 if th else 60, "FW"], self.nontrivial, cmp)
+        # the declared WebSocket maximum (and 16 MiB + 1, above the WS library's default frame limit), both directions: delivered intact
+        core.tie_run(stats, "stream", ["gen-sizes", tier, "W"], lambda c, t: True, cmp)
         if th:
             core.tie_run(stats, "stream", ["gen-e2e", seed + 1, 40, "FW", "big"], self.nontrivial, cmp)
 
